@@ -50,6 +50,13 @@ def run_check(prop, tier, include_root=None, write=True, quiet=False):
             print('ANALYSIS-BROKEN property=%s: internal error\n%s' % (prop, traceback.format_exc()))
         return 2, [], [], S
     expl = EXPLANATION + '; '.join('%s: %s' % (k, v) for k, v in S.rules.items())
+    if S.broken and not any(not o.ok for o in S.obs):
+        if not quiet:
+            for b in S.broken:
+                print('ANALYSIS-BROKEN property=%s: %s' % (prop, b))
+        return 2, [], [], S
+    for b in S.broken:
+        S.note('instance minimum not met (reported together with the violations of this run): ' + b)
     rc, viol, kfs = session.finish(S, expl, write=write)
     return rc, viol, kfs, S
 
